@@ -8,7 +8,9 @@ import re
 import subprocess
 import sys
 
-V = "/verif"
+V = os.environ.get("VERIF_DIR", "/verif")          # a work copy may sweep in parallel: VERIF_DIR + VERIF_REPO
+R = os.environ.get("VERIF_REPO", "/repo")
+SEEDS = "/verif/seeded"
 
 
 def sh(cmd, cwd=None):
@@ -20,22 +22,22 @@ def sh(cmd, cwd=None):
 def main():
     missed = 0
     for prop in sys.argv[1:]:
-        ids = sorted((d for d in os.listdir(V + "/seeded") if re.fullmatch(prop + r"-\d+", d)), key=lambda d: int(d.split("-")[1]))
+        ids = sorted((d for d in os.listdir(SEEDS) if re.fullmatch(prop + r"-\d+", d)), key=lambda d: int(d.split("-")[1]))
         for d in ids:
-            if sh("git -C /repo status --short | grep -v '^??' | head -1")[1].strip():
+            if sh("git -C %s status --short | grep -v '^??' | head -1" % R)[1].strip():
                 print("refusing: /repo has uncommitted changes")
                 sys.exit(2)
-            rc, o = sh("git -C /repo apply %s/seeded/%s/patch.diff" % (V, d))
+            rc, o = sh("git -C %s apply %s/%s/patch.diff" % (R, SEEDS, d))
             if rc != 0:
                 print(d, "does not apply:", o.strip()[-120:])
                 continue
             rc, o = sh("./check %s --tier quick" % prop, cwd=V)
-            sh("git -C /repo checkout -- .")
+            sh("git -C %s checkout -- ." % R)
             v = [l for l in o.splitlines() if l.startswith("VIOLATION")]
             nf = all(l.rstrip().endswith("no-failing-input-found") for l in v) if v else None
             print(d, "exit=%d" % rc, "violations=%d" % len(v), "NO-FAILING-INPUT" if nf else ("MISSED" if not v else "replay"), flush=True)
             missed += 0 if v and rc == 1 else 1
-            mp = "%s/seeded/%s/meta.json" % (V, d)
+            mp = "%s/%s/meta.json" % (SEEDS, d)
             try:
                 meta = json.load(open(mp))
                 meta.setdefault("what_i_ran", {}).setdefault("checks", {})[prop] = {
